@@ -8,12 +8,26 @@
    One JSON schedule per behaviour is printed after MaxSteps steps. *)
 EXTENDS Speaker, SpeakerDom, Json
 
-CONSTANTS MaxSteps, WithPolicy
+CONSTANTS MaxSteps, WithPolicy, Warm
 
 VARIABLES stalled, held, hist
 gvars == <<up, inr, loc, impPol, expPol, inrPol, expEff, stalled, held, hist>>
 
-GInit == PInit /\ stalled = {} /\ held = {} /\ hist = <<>>
+(* Warm: every neighbour is brought up first (the schedule starts with Up A, Up B, Up C), so that
+   the random part is spent on route, policy and reset events *)
+SetToSeq(S) == LET RECURSIVE F(_)
+                   F(T) == IF T = {} THEN <<>> ELSE LET m == CHOOSE a \in T : TRUE IN <<m>> \o F(T \ {m})
+               IN F(S)
+UpSteps == LET q == SetToSeq(Peers) IN [i \in 1..Len(q) |-> [ev |-> "Up", p |-> q[i]]]
+GInit == /\ IF Warm THEN /\ up = [p \in Peers |-> TRUE]
+                         /\ inr = [p \in Peers |-> [x \in Prefixes |-> NoRoute]]
+                         /\ loc = [x \in Prefixes |-> NoRoute]
+                         /\ impPol = "acc" /\ expPol = "acc"
+                         /\ inrPol = [p \in Peers |-> [x \in Prefixes |-> "acc"]]
+                         /\ expEff = [p \in Peers |-> "acc"]
+                         /\ hist = UpSteps
+                    ELSE PInit /\ hist = <<>>
+         /\ stalled = {} /\ held = {}
 
 Log(e) == hist' = Append(hist, e)
 
@@ -21,7 +35,7 @@ GUp(p)      == PUp(p) /\ p \notin held /\ Log([ev |-> "Up", p |-> p]) /\ UNCHANG
 GUpHold(p)  == ~WithPolicy /\ PUp(p) /\ held = {} /\ held' = {p} /\ Log([ev |-> "UpHold", p |-> p]) /\ UNCHANGED stalled
 GRelease(p) == p \in held /\ held' = held \ {p} /\ Log([ev |-> "Release", p |-> p])
                /\ UNCHANGED <<up, inr, loc, polvars, stalled>>
-GDown(p)    == PDown(p) /\ p \notin held /\ stalled' = stalled \ {p}
+GDown(p)    == (~Warm \/ RandomElement(1..4) = 1) /\ PDown(p) /\ p \notin held /\ stalled' = stalled \ {p}
                /\ Log([ev |-> "Down", p |-> p]) /\ UNCHANGED held
 GAnn(p)     == /\ up[p] /\ p \notin held
                /\ LET x == RandomElement(Prefixes)
